@@ -333,6 +333,8 @@ class Ctx:
 
 
 def _render_model(model, limit=60):
+    if isinstance(model, dict):
+        return model
     out = {}
     try:
         for d in model.decls()[:limit]:
